@@ -5,8 +5,8 @@ import lib
 def run(v, tier, replay):
     thorough = tier == "thorough"
     v.assumptions += ["a value is abstracted to the lengths of its variable fields and its enum bytes; contents are generated deterministically",
-                      "4-byte length prefixes are treated as unbounded (TLC integers are 32-bit); user-authentication request covered through the tube drivers (C11), not here",
-                      "unexported codecs (tube frames, execution request, port-forward address packet) are reached by add-only _test.go drivers injected with go test -overlay"]
+                      "4-byte length prefixes are treated as unbounded (TLC integers are 32-bit); the user-authentication request is round-tripped over a real reliable tube pair (in-memory message connection)",
+                      "unexported codecs (tube frames, execution request, port-forward address packet, user-authentication request) are reached by add-only _test.go drivers injected with go test -overlay"]
     binp = lib.go_build("c18")
     r = lib.tlc("HopWire", "MC_HopWire.cfg", timeout=300)
     lib.tlc_must_pass(r, "MC_HopWire")
@@ -18,7 +18,7 @@ def run(v, tier, replay):
     if rc != 0:
         raise lib.Inconclusive("c18 driver failed: " + (so + se)[-3000:])
     parts.append(p0)
-    for pkg, test in (("tubes", "TestVerifWireFrames"), ("codex", "TestVerifWireExec"), ("portforwarding", "TestVerifWirePF")):
+    for pkg, test in (("tubes", "TestVerifWireFrames"), ("codex", "TestVerifWireExec"), ("portforwarding", "TestVerifWirePF"), ("userauth", "TestVerifWireUserAuth")):
         out = os.path.join(sd, pkg + ".ndjson")
         rc, so, se = lib.overlay_test(pkg, "^%s$" % test, env_extra={"VT_OUT": out}, timeout=900)
         if rc != 0 or not os.path.exists(out):
